@@ -98,9 +98,9 @@ theorem finaliseParts_last (opts : Opts) (init : List Obj) (o : Obj) (v : Value)
         | ok w =>
           simp [h1, h2, bind, Except.bind, List.mapM_cons, List.mapM_nil, pure, Except.pure] at hm
           refine ⟨r, w, ?_, ?_, rfl⟩
-          · by_cases ht : opts.tuplesToLists = true
-            · left; simp [ht] at h; exact h.symm
-            · right; simp [ht] at h; exact h.symm
+          · by_cases ht : (opts.convertOutput && opts.tuplesToLists) = true
+            · left; simp only [ht] at h; simp at h; exact h.symm
+            · right; simp only [ht] at h; simp at h; exact h.symm
           · simp [hm]
 
 /-- PERSISTENCE, on programs: the last component of what an observing program `let(x => P) -> [$x.u(..), ..., $x]` returns
@@ -173,9 +173,9 @@ theorem observed_update_is_unobserved_update (opts : Opts) (binder : Option Op) 
           cases h2 : finalise opts o with
           | error e => simp [h1, h2] at h
           | ok w2 =>
-            simp [h1, h2] at h
+            simp only [h1, h2] at h
             refine ⟨w, [w2], ?_, rfl⟩
-            by_cases ht : opts.tuplesToLists = true
+            by_cases ht : (opts.convertOutput && opts.tuplesToLists) = true
             · left; simp [ht] at h; exact h.symm
             · right; simp [ht] at h; exact h.symm
 
